@@ -127,6 +127,64 @@ def crash_job(job):
     return res
 
 
+SESSION_WRITER = """
+import sys, os, numpy as np
+from oqupy.process_tensor import FileProcessTensor
+pt = FileProcessTensor(mode='write', filename=sys.argv[1], hilbert_space_dimension=2, dt=0.1)
+pt.set_mpo_tensor(0, np.eye(4).reshape(1, 1, 4, 4))
+if sys.argv[2] == 'clean':
+    pt.set_mpo_tensor(1, np.eye(4).reshape(1, 1, 4, 4))
+    pt.compute_caps()
+    pt.close()
+else:
+    pt._f.flush()
+    os._exit(0)
+"""
+SESSION_READER = """
+import sys
+import oqupy
+for spec in sys.argv[1:]:
+    typ, path = spec.split(':', 1)
+    pt = oqupy.import_process_tensor(path, typ)
+    print('OPENED', path, len(pt))
+    if typ == 'file':
+        pt.close()
+"""
+
+
+def session_job(job):
+    """A reader SESSION: one interpreter with Python's default warning filters opens several files one after the other (a
+    script walking a directory of results).  Every interrupted file it opens must fail or produce a warning the user can
+    see - also the second, third, ... one."""
+    tmpdir, plan = job          # plan: list of (kind, import type); kind 'flagged' / 'clean'
+    env = dict(os.environ, PYTHONPATH=core.REPO, OMP_NUM_THREADS="1")
+    env.pop("PYTHONWARNINGS", None)
+    paths = []
+    for i, (kind, _typ) in enumerate(plan):
+        path = os.path.join(tmpdir, "session_%d_%s_%d.h5" % (os.getpid(), kind, i))
+        p = subprocess.run([core.PY, "-c", SESSION_WRITER, path, kind], env=env, stdout=subprocess.PIPE, stderr=subprocess.STDOUT,
+                           text=True, timeout=300)
+        if p.returncode != 0 or not os.path.exists(path):
+            return [{"what": "harness", "detail": "session writer: rc=%s %s" % (p.returncode, p.stdout[-200:])}]
+        paths.append(path)
+    p = subprocess.run([core.PY, "-c", SESSION_READER] + ["%s:%s" % (typ, path) for (_k, typ), path in zip(plan, paths)],
+                       env=env, stdout=subprocess.PIPE, stderr=subprocess.PIPE, text=True, timeout=300)
+    opened = [ln.split()[1] for ln in p.stdout.splitlines() if ln.startswith("OPENED")]
+    shown = p.stderr.count("may be corrupt")
+    flagged_opened = [path for (kind, _t), path in zip(plan, paths) if kind == "flagged" and path in opened]
+    out = []
+    if shown < len(flagged_opened):
+        out.append({"what": "interrupted-file-opens-without-visible-warning", "plan": [list(x) for x in plan],
+                    "interrupted_files_opened": len(flagged_opened), "warnings_shown": shown})
+    clean_opened = [path for (kind, _t), path in zip(plan, paths) if kind == "clean" and path in opened]
+    if len(clean_opened) != sum(1 for k, _ in plan if k == "clean"):
+        out.append({"what": "clean-file-not-opened", "stderr": p.stderr[-300:]})
+    for path in paths:
+        if os.path.exists(path):
+            os.remove(path)
+    return out
+
+
 def mode_job(job):
     import oqupy
     from oqupy.process_tensor import FileProcessTensor
@@ -358,6 +416,16 @@ def run(ctx):
                     raise core.MachineryError(x["detail"])
                 ctx.violation("C17:modes:%s%s" % (x["what"], ":race" if late else ""), "%s late=%s: %s" % (row, late, x),
                               {"mode_row": row, "late": late})
+        # reader sessions: several files opened one after the other in one interpreter with default warning filters
+        plans = [[("flagged", "simple"), ("flagged", "simple")], [("flagged", "file"), ("clean", "file"), ("flagged", "simple")],
+                 [("clean", "simple"), ("flagged", "file"), ("flagged", "file"), ("flagged", "simple")]]
+        sjobs = [(tmpdir, pl) for pl in plans]
+        for (_, pl), mm in zip(sjobs, core.pmap(session_job, sjobs)):
+            ctx.case({"reader_session": [list(x) for x in pl]})
+            for x in mm:
+                if x["what"] == "harness":
+                    raise core.MachineryError(x["detail"])
+                ctx.violation("C17:session:%s" % x["what"], "%s" % x, {"session": [list(x_) for x_ in pl]})
     finally:
         shutil.rmtree(tmpdir, ignore_errors=True)
     ctx.rule = ("for each writer scenario: the recorded h5py operation trace validated by TLC; every crash point k "
@@ -376,6 +444,9 @@ def replay(ctx, rep):
             mm = crash_job((c["scenario"], c["crash"], c["flush"], {"error", "warn"}, tmpdir, {}, c.get("death", "kill"),
                             c.get("fail_step", 0)))
             for x in mm:
+                ctx.violation("C17:replay:" + x["what"], str(x), c)
+        if "session" in c:
+            for x in session_job((tmpdir, [tuple(x) for x in c["session"]])):
                 ctx.violation("C17:replay:" + x["what"], str(x), c)
         if "mode_row" in c:
             core._init_worker()
